@@ -35,7 +35,7 @@ static int stalled_reshape(parsec_comm_engine_t *ce, parsec_execution_stream_t *
                            parsec_datatype_t layout_src, uint64_t count_src)
 {
 #if defined(PARSEC_VERIF_SIM)
-    if (copy_stall_ns) sim_delay(copy_stall_ns);
+    if (copy_stall_ns) { dtdh_event(MYRANK, 13, 0, 0); sim_delay(copy_stall_ns); }
 #endif
     return real_reshape(ce, es, dst, displ_dst, layout_dst, count_dst, src, displ_src, layout_src, count_src);
 }
